@@ -172,7 +172,7 @@ fn explore(ctx: &Ctx) -> Outcome {
     }
     // length sweep (text offsets slid across the table offsets) and long multi-byte strings
     let mut extra = binfam::length_sweep();
-    extra.extend(binfam::multibyte_alignment().into_iter().map(|mut c| {
+    extra.extend(binfam::multibyte_alignment().into_iter().chain(binfam::kana_family()).map(|mut c| {
         c.cstrings.clear();
         c
     }));
